@@ -227,6 +227,15 @@ def _judge(ctx, oa, b, cfg, tr, bi, site, fams):
                 outer = oa.outer or oa.inner
                 before = outer['header'] in cfg.reachable_from([bi])
                 return 'table', ('stepping', 'begin_panic', 'guard:initial-score-none' if before else 'guard:final-score-none'), ''
+        from . import C17 as _c17
+        _c17.FACTS[0] = f
+        dd = _c17.digit_expect(b, cfg, tr, bi, t)
+        if dd:
+            return 'discharged', 'digit-value-is-some', dd
+        o1 = tr.origin(t['args'][0])
+        if o1['o'] == 'call' and call_matches(o1['term'], '<impl [T]>::first', '<impl [T]>::last') and b.file.endswith('to_svg.rs'):
+            # items.first().expect(..) is items[0] with a message: same precondition
+            return 'table', ('svg', 'Vec-index', 'corners-or-items-constant-index'), ''
         if b.impl_trait and f.norm(b.impl_trait).endswith('cmp::Ord') and b.fn_name == 'cmp':
             o = tr.origin(t['args'][0])
             if o['o'] == 'call' and call_matches(o['term'], 'partial_cmp'):
@@ -243,6 +252,11 @@ def _judge(ctx, oa, b, cfg, tr, bi, site, fams):
         return 'violation', 'gen_range', 'gen_range bounds are not constants with lo < hi (panics when lo >= hi)'
     if '(usize, usize)' in n:
         idx = tr.origin(t['args'][1])
+        if idx['o'] == 'const':
+            from ..mirutil import const_tuple
+            ct = const_tuple(f, idx['c'])
+            if ct is not None and len(ct) == 2 and all(0 <= v <= 2 for v in ct):
+                return 'discharged', 'matrix-const-index', 'named constant (row, col) = %s within 3x3' % (ct,)
         if idx['o'] == 'rvalue' and idx['rv']['r'] == 'aggr':
             vals = [const_value(x) if x.get('k') == 'const' else None for x in idx['rv']['ops']]
             if all(isinstance(v, int) and 0 <= v <= 2 for v in vals):
@@ -378,9 +392,8 @@ def debug_only_blocks(b, cfg):
             skip = arms.get('0')
             inside = t['otherwise']
             if skip is not None and inside != skip:
-                st = b.blocks[skip]
-                join = st['term']['target'] if st['term']['t'] == 'goto' and not st['stmts'] else skip
-                out |= cfg.reachable_from([inside], avoid={join, skip})
+                # everything only the "assertions enabled" arm can reach (the join point and what follows is reachable from both)
+                out |= cfg.reachable_from([inside]) - cfg.reachable_from([skip])
         elif t['t'] == 'call':
             out.add(bi)
     return out
@@ -529,6 +542,12 @@ def _const_param(ctx, b, tr, op, label):
 
 def _overflow(ctx, oa, b, cfg, tr, bi, t):
     binop = t.get('binop')
+    if binop == 'Sub':
+        from . import C17 as _c17
+        _c17.FACTS[0] = ctx.facts
+        sg = _c17._sub_under_guard(b, cfg, tr, bi, t)
+        if sg:
+            return 'discharged', 'subtraction-cannot-underflow', sg
     a, c = t['ops']
     ao, co = tr.origin(a), tr.origin(c)
     sigk = 'Overflow:%s' % binop
